@@ -22,7 +22,7 @@ EXPLANATION = (
     "C18.6 a submission slot is handed out only while (tail + 1) - kernel_head <= ring_entries with the head the kernel publishes on every path, so no queued operation is overwritten before it was consumed, flush leaves the tail unpublished only when head == tail, and the completion read is entries + ((kernel_head & mask) << shift); "
     "C18.4 also: every io_uring flag constant has the value of the kernel header (frozen table c18_flags.json) and no two names of one flag type share a bit. "
     "C18.2 also: with IORING_FEAT_SINGLE_MMAP the shared mapping is as long as the longer ring, and the ring descriptor is closed exactly once on every way out of Drop. "
-    "C18.4 also: every constructor argument reaches its entry field unmodified (no masking of a mode, no substituted clock) and the integer constants a constructor writes are the reviewed ones (c18_consts.json). NOT decided: that results equal the direct system call's, one completion per submission (kernel behaviour).")
+    "C18.4 also: every constructor argument reaches its entry field unmodified (no masking of a mode, no substituted clock) and the integer constants a constructor writes are the reviewed ones (c18_consts.json). C18.6 also: the private tail moves only together with a slot being handed out, and the kernel's ring flags word is tested with that ring's own bits (IORING_SQ_* / IORING_CQ_*). NOT decided: that results equal the direct system call's, one completion per submission (kernel behaviour).")
 ASSUMPTIONS = ["params.sq_entries == ring_entries read from the mapped ring (the kernel's two reports of one number)", "IORING_FEAT_SINGLE_MMAP semantics"]
 
 Q = "rusl::platform::compat::io_uring::"
